@@ -26,7 +26,7 @@ SIMPLE_CONDITIONS = [["id", "a"], ["id", "b"], ["id", "c"], ["and", [["id", "a"]
 
 
 def gen_world(rng, circular=None, simple_rules: float = 0.6, max_genes: int = 12, allow_extenders: bool = True,
-              allow_superiors: bool = True, allow_multipliers: bool = True, lengths=None):
+              allow_superiors: bool = True, allow_multipliers: bool = True, lengths=None, nb_choices=None):
     cut_choices = rng.choice([[1, 2, 3], [2, 20], [1, 5], [3], [1, 2], [2, 10, 3]])
     length = rng.choice(lengths or [1500, 3000, 4000, 6000, 8000, 10000, 12000, 20000, 60000])
     if circular is None:
@@ -46,7 +46,7 @@ def gen_world(rng, circular=None, simple_rules: float = 0.6, max_genes: int = 12
             if not R.has_positive(ast):
                 ast = ["id", "a"]
         rule = {"name": f"r{j}", "cutoff_kb": rng.choice(cut_choices), "ast": ast,
-                "nb_kb": rng.choice([1, 1, 2, 5, 20, 100]), "superiors": [], "extenders": None}
+                "nb_kb": rng.choice(nb_choices or [1, 1, 2, 5, 20, 100]), "superiors": [], "extenders": None}
         if allow_superiors and rules and rng.random() < 0.3:
             sup = rng.choice(rules)
             rule["superiors"] = sorted({sup["name"], *sup["superiors"]})  # the parser closes transitively
